@@ -11,11 +11,56 @@ ORACLE = {
 }["C04"]
 
 
+TITLES = ("plain title", "run v1.5", "a.b.c", "ends with a dot.", "comma, space and (brackets)", "slash/colon:star*", "percent 50% & unicode \u00e9", ".starts with a dot")
+
+
+def title_job(j):
+    """the run title is an input too: one complete run per title of the menu (dots, commas, characters the model replaces in file
+    names); the full C04 monitor - headline, breakdown and the table each round saved under its documented name
+    <title with \\/*?:"<>| replaced by _>_ykcals.csv - is applied to every round after the scenario has finished"""
+    import os
+    import re
+    import sys
+    from .. import options
+    iso, pn, title = j
+    pipeline.init()
+    opts = options.preset(pn)
+    opts["NMONTHS"] = 48
+    cap = pipeline.execute(iso, opts, title)
+    key = {"iso3": iso, "preset": pn, "title": title}
+    rp = {"title_case": [iso, pn, title]}
+    vs = []
+    if cap["error"]:
+        from ..common import violation
+        vs.append(violation("saved_table_equals_result", dict(key, column="run"), "%s with title %r did not complete: %s" % (iso, title, cap["error"]), rp))
+    else:
+        vs = pipeline.mon_c04(cap, key, rp)
+    rdir = os.path.join(sys.modules["src.optimizer.interpret_results"].repo_root, "results")
+    stem = re.sub(r'[\\/*?:"<>|\n]', "_", title)
+    for f in os.listdir(rdir):
+        if f.startswith(stem) or f.startswith(stem.rsplit(".", 1)[0]) and stem.rsplit(".", 1)[0]:
+            try:
+                os.remove(os.path.join(rdir, f))
+            except (FileNotFoundError, IsADirectoryError):
+                pass
+    return {"v": vs, "rounds": len(cap["interp"])}
+
+
 def run(tier, seed):
-    return pipeline.run_property("C04", tier, seed, ORACLE,
-                                 ["CBC and HiGHS are trusted as LP solvers (oracles for one enumerated instance each)",
-                                  "cumulative clauses use 1e-5 relative + 1e-6 absolute (sums of up to 120 solver values)"])
+    from .. import common
+    tjobs = [(iso, "ms_example_resilient", t) for iso in (("NZL",) if tier == "quick" else ("NZL", "USA", "IND")) for t in TITLES]
+    tres = common.pmap(title_job, tjobs, init_fn=pipeline.init, chunksize=1)
+    res = pipeline.run_property("C04", tier, seed, ORACLE,
+                                ["CBC and HiGHS are trusted as LP solvers (oracles for one enumerated instance each)",
+                                 "cumulative clauses use 1e-5 relative + 1e-6 absolute (sums of up to 120 solver values)"])
+    res["violations"] = res["violations"] + [v for r in tres for v in r["v"]]
+    cov = res["coverage"]
+    cov["title_alphabet"] = {"titles": list(TITLES), "runs": len(tjobs), "rounds_checked": sum(r["rounds"] for r in tres)}
+    cov["executions"] += len(tjobs)
+    return res
 
 
 def replay(rp):
+    if "title_case" in rp:
+        return title_job(tuple(rp["title_case"]))["v"]
     return pipeline.replay("C04", rp)
